@@ -198,6 +198,12 @@ func applyOp(pool map[string]ast.Node, keys map[string]int, op, p, ref, c string
 
 func astKeys(names []string) map[string]int {
 	k := map[string]int{}
+	if len(names) > 6 { // wide forests: key of n_i = (7 i) mod 5 (KeyWide of AstTreeMC.tla)
+		for i, n := range names {
+			k[n] = ((i + 1) * 7) % 5
+		}
+		return k
+	}
 	for _, n := range names {
 		if n == "n1" || n == "n3" || n == "n5" {
 			k[n] = 2
@@ -316,7 +322,11 @@ func replayC13(c *Ctx, raw json.RawMessage) (bool, string) {
 	}
 	if r.Kind == "trace" {
 		p := [][]astStep{append(append([]astStep{}, r.Path...), r.Last)}
-		bad, _, _ := validateAstTraces(c, p, 0, false)
+		names, cfg := astTraceNames, "TraceAstTree.cfg"
+		if len(r.Names) > 6 {
+			names, cfg = astWideNames, "TraceAstTree_wide.cfg"
+		}
+		bad, _, _ := validateAstTracesOn(c, names, cfg, p, 0, false)
 		if why, ok := bad[0]; ok {
 			return true, fmt.Sprintf("call sequence ending in %+v rejected by TraceAstTree: %s", r.Last, why)
 		}
@@ -520,6 +530,25 @@ func runC13(c *Ctx) {
 		c.Report(Violation{Signature: "C13/trace/" + last.Op + "/" + why, Detail: fmt.Sprintf("random call sequence rejected by TraceAstTree at its last call %+v after %d calls: %s", last, len(path)-1, why),
 			Replay: astReplay{Kind: "trace", Names: astTraceNames, Path: path[:len(path)-1], Last: last}})
 	}
+	// long sibling lists (10-19 children of one parent): the same monitor over 20 nodes
+	var wide [][]astStep
+	wrg := c.Rand("wide")
+	for t := 0; t < c.Pick(60, 600); t++ {
+		wide = append(wide, wideAstPath(wrg))
+	}
+	wbad, wnev, wr := validateAstTracesOn(c, astWideNames, "TraceAstTree_wide.cfg", wide, 0, false)
+	ev.TLC("TraceAstTree over 20 nodes (long sibling lists)", wr)
+	ev.Add("traces_validated_against_impl", int64(len(wide)))
+	nEval += int64(wnev)
+	for t, why := range wbad {
+		path := wide[t]
+		last := path[len(path)-1]
+		if b2, _, _ := validateAstTracesOn(c, astWideNames, "TraceAstTree_wide.cfg", [][]astStep{path}, 0, false); len(b2) == 0 {
+			infra("wide trace %d rejected in the batch but accepted alone", t)
+		}
+		c.Report(Violation{Signature: "C13/trace-wide/" + last.Op + "/" + why, Detail: fmt.Sprintf("call sequence on a long sibling list rejected by TraceAstTree at its last call %+v after %d calls: %s", last, len(path)-1, why),
+			Replay: astReplay{Kind: "trace", Names: astWideNames, Path: path[:len(path)-1], Last: last}})
+	}
 	ev.Add("evaluations", nEval)
 }
 
@@ -689,7 +718,48 @@ var astTraceNames = []string{"n1", "n2", "n3", "n4", "n5", "n6"}
 // gen is set and paths[t] is nil), logs the observed forest after every call and has TLC
 // validate the log against TraceAstTree.tla. Returns rejected trace index -> reason.
 func validateAstTraces(c *Ctx, paths [][]astStep, tlen int, gen bool) (map[int]string, int, TLCResult) {
-	tnames := astTraceNames
+	return validateAstTracesOn(c, astTraceNames, "TraceAstTree.cfg", paths, tlen, gen)
+}
+
+var astWideNames = []string{"n1", "n2", "n3", "n4", "n5", "n6", "n7", "n8", "n9", "n10", "n11", "n12", "n13", "n14", "n15", "n16", "n17", "n18", "n19", "n20"}
+
+// wideAstPath: all other nodes become children of one parent in random order, then calls that
+// work on that long sibling list (sort, insert before / after, replace, remove and re-attach).
+func wideAstPath(rg *rand.Rand) []astStep {
+	names := astWideNames
+	var path []astStep
+	perm := rg.Perm(len(names) - 1)
+	n := 10 + rg.Intn(10)
+	var kids []string
+	for _, i := range perm[:n] {
+		path = append(path, astStep{"AppendChild", "n1", "nil", names[i+1]})
+		kids = append(kids, names[i+1])
+	}
+	for s := 0; s < 25; s++ {
+		a, b := kids[rg.Intn(len(kids))], names[1+rg.Intn(len(names)-1)]
+		switch rg.Intn(6) {
+		case 0, 1:
+			path = append(path, astStep{"SortChildren", "n1", "nil", "nil"})
+		case 2:
+			if a != b {
+				path = append(path, astStep{"InsertBefore", "n1", a, b})
+			}
+		case 3:
+			if a != b {
+				path = append(path, astStep{"InsertAfter", "n1", a, b})
+			}
+		case 4:
+			path = append(path, astStep{"RemoveChild", "n1", "nil", a}, astStep{"AppendChild", "n1", "nil", a})
+		default:
+			if a != b {
+				path = append(path, astStep{"ReplaceChild", "n1", a, b})
+			}
+		}
+	}
+	return path
+}
+
+func validateAstTracesOn(c *Ctx, tnames []string, cfg string, paths [][]astStep, tlen int, gen bool) (map[int]string, int, TLCResult) {
 	var tr traceBuf
 	for t := range paths {
 		pool := newPool(tnames)
@@ -737,7 +807,7 @@ func validateAstTraces(c *Ctx, paths [][]astStep, tlen int, gen bool) (map[int]s
 		} `json:"bad"`
 	}
 	got := false
-	r := RunTLC(TLCOpts{Module: "TraceAstTree", Cfg: "TraceAstTree.cfg", Workers: 1, Timeout: 20 * time.Minute,
+	r := RunTLC(TLCOpts{Module: "TraceAstTree", Cfg: cfg, Workers: 1, Timeout: 20 * time.Minute,
 		Files: map[string][]byte{"trace.ndjson": tr.bytes()}, OnJSON: func(raw []byte) {
 			if json.Unmarshal(raw, &verdict) == nil && verdict.Done {
 				got = true
